@@ -674,7 +674,8 @@ def _accumulation_core(ctx):
         ci = prog.cls(DC + cname)
         tests = []
         for prop in ("lifetime_n_times_load_sequence", "lifetime_n_cycles"):
-            f = prog.lookup_method(ci, prop)
+            from ..inline import inlined
+            f = inlined(prog, prog.lookup_method(ci, prop))     # private helpers (extracted tests / sums) expanded
             w = [c for c in calls_in(f.node) if call_name(c) == "np.where" and len(c.args) == 3 and
                  isinstance(c.args[0], ast.Compare) and is_self_attr(c.args[0].left) and is_self_attr(c.args[0].comparators[0])
                  and isinstance(c.args[0].ops[0], ast.Lt)]
@@ -716,50 +717,75 @@ def _accumulation_core(ctx):
                          % (cname, norm_text(c1.args[1]), norm_text(c2.args[1])), text="early failure values " + cname)
     # P_RAM: x and cycles per repetition
     ci = prog.cls(DC + "DamageCalculatorPRAM")
-    f = prog.lookup_method(ci, "lifetime_n_times_load_sequence")
+    f = inlined(prog, prog.lookup_method(ci, "lifetime_n_times_load_sequence"))
+    from ..astutil import inline_single_defs
     sums = {}
+    sum_sites = {}
+
+    def full(st_):
+        return inline_single_defs(f.node, st_.value)
     for st in walk_function(f.node):
-        if isinstance(st, ast.Assign) and isinstance(st.targets[0], ast.Name) and isinstance(st.value, ast.Call) and \
-                isinstance(st.value.func, ast.Attribute) and st.value.func.attr == "sum":
-            fl = _run_filter(st.value)
-            if fl and len(fl) == 1 and '"D"' in norm_text(st.value).replace("'", '"'):
-                sums[st.targets[0].id] = next(iter(fl))
-    xs = [st for st in walk_function(f.node) if isinstance(st, ast.Assign) and isinstance(st.value, ast.Call) and
-          call_name(st.value) == "np.where" and len(st.value.args) == 3 and isinstance(st.value.args[0], ast.Compare) and
-          const_value(st.value.args[0].comparators[0]) == 0]
-    # both pass sums are sums of the per-hysteresis damage column D (which carries the 1/2 of half hystereses)
-    allsums = [st for st in walk_function(f.node) if isinstance(st, ast.Assign) and isinstance(st.targets[0], ast.Name) and
-               isinstance(st.value, ast.Call) and isinstance(st.value.func, ast.Attribute) and st.value.func.attr == "sum" and
-               _run_filter(st.value)]
-    for st in allsums:
-        if st.targets[0].id not in sums:
+        if isinstance(st, ast.Assign) and isinstance(st.targets[0], ast.Name):
+            v_ = full(st)
+            # the pass sum, possibly wrapped in a helper that fills missing points: <...>.sum() somewhere in the value
+            inner = [c_ for c_ in calls_in(v_) if isinstance(c_.func, ast.Attribute) and c_.func.attr == "sum"]
+            if (isinstance(v_, ast.Call) and isinstance(v_.func, ast.Attribute) and v_.func.attr == "sum") or \
+                    (inner and isinstance(st.value, ast.Call) and is_self_attr(st.value.func)):
+                tgt = v_ if not inner or (isinstance(v_.func, ast.Attribute) and v_.func.attr == "sum") else inner[0]
+                fl = _run_filter(tgt)
+                if fl:
+                    sum_sites[st.targets[0].id] = (st, tgt, fl)
+                    if len(fl) == 1 and '"D"' in norm_text(tgt).replace("'", '"'):
+                        sums[st.targets[0].id] = next(iter(fl))
+    # a local that is only the filled-up version of a pass sum (x = fill(x, 0)) keeps its pass
+    for name, (st, tgt, fl) in sum_sites.items():
+        if name not in sums:
             ctx.violated(f, st, "the damage sum of pass %s is %s, not the sum of the per-hysteresis damage column D: half "
                          "hystereses of that pass are not counted with 1/2 as everywhere else" %
-                         (sorted(_run_filter(st.value)), norm_text(st.value)[:120]), text="pass sum not from D")
-    if len(xs) != 1 or set(sums.values()) != {1, 2}:
-        if any(st.targets[0].id not in sums for st in allsums):
+                         (sorted(fl), norm_text(tgt)[:120]), text="pass sum not from D")
+    if set(sums.values()) != {1, 2}:
+        if any(n_ not in sums for n_ in sum_sites):
             return
         raise AnalysisError("lifetime_n_times_load_sequence: damage sums of pass 1/2 or the x formula not found")
     d1 = next(k for k, v in sums.items() if v == 1)
     d2 = next(k for k, v in sums.items() if v == 2)
 
     def atom(e):
-        if isinstance(e, ast.Name) and e.id in (d1, d2):
-            return "D1" if e.id == d1 else "D2"
+        if isinstance(e, ast.Name) and e.id in sums:
+            return "D1" if sums[e.id] == 1 else "D2"
         return None
+    # x: the quantity the result adds one to
+    res = [c for c in calls_in(f.node) if call_name(c) == "np.where" and len(c.args) == 3 and
+           is_self_attr(c.args[0].left if isinstance(c.args[0], ast.Compare) else None)]
+    xname = None
+    if res and isinstance(res[0].args[2], ast.BinOp) and isinstance(res[0].args[2].op, ast.Add):
+        for side, other in ((res[0].args[2].left, res[0].args[2].right), (res[0].args[2].right, res[0].args[2].left)):
+            if isinstance(side, ast.Name) and const_value(other) == 1:
+                xname = side.id
+    xdefs = [st for st in walk_function(f.node) if isinstance(st, ast.Assign) and isinstance(st.targets[0], ast.Name) and
+             st.targets[0].id == xname]
+    if len(xdefs) != 1:
+        raise AnalysisError("lifetime_n_times_load_sequence: damage sums of pass 1/2 or the x formula not found")
+    xs = xdefs
+    xv = xs[0].value
+    while isinstance(xv, ast.Call) and call_name(xv) in ("np.asarray", "np.array") and xv.args:
+        xv = xv.args[0]
+    want = to_nf(parse_expr("(1 - D1) / D2"))
     try:
-        gen = to_nf(xs[0].value.args[2], atom=atom)
-        spec = to_nf(xs[0].value.args[1], atom=atom)
-        want = to_nf(parse_expr("(1 - D1) / D2"))
-        ok = gen == want and spec == _subst_atom(want, "D1", RF.const(0)) and norm_text(xs[0].value.args[0].left) == d1
+        if isinstance(xv, ast.Call) and call_name(xv) == "np.where" and len(xv.args) == 3:
+            gen = to_nf(xv.args[2], atom=atom)
+            spec = to_nf(xv.args[1], atom=atom)
+            cond_ok = isinstance(xv.args[0], ast.Compare) and const_value(xv.args[0].comparators[0]) == 0 and \
+                isinstance(xv.args[0].left, ast.Name) and sums.get(xv.args[0].left.id) == 1
+            ok = gen == want and spec == _subst_atom(want, "D1", RF.const(0)) and cond_ok
+        else:
+            ok = to_nf(xv, atom=atom) == want            # the case D_1 = 0 is the same formula
     except NFUnsupported:
         ok = False
     if ok:
         ctx.holds(f, xs[0], "x = (1 - D_1)/D_2 with D_1 = damage of pass 1, D_2 = damage of pass 2 (special case D_1 = 0 consistent)")
     else:
         ctx.violated(f, xs[0], "the number of repetitions of pass 2 is %s; expected (1 - D_1)/D_2" % norm_text(xs[0].value), text="x formula")
-    res = [c for c in calls_in(f.node) if call_name(c) == "np.where" and is_self_attr(c.args[0].left if isinstance(c.args[0], ast.Compare) else None)]
-    xname = xs[0].targets[0].id
     try:
         ok = bool(res) and to_nf(res[0].args[2]) == to_nf(parse_expr("%s + 1" % xname))
     except NFUnsupported:
